@@ -40,7 +40,8 @@ RULE = ("random save lists (1-4 of the five buckets x fits/npy plus at most one 
         "(1-3 readouts, flat/hierarchical, Python/YAML objects, 1-3 starts into one parent, same or fresh mode object), "
         "sequential and dask observation (product/custom/sequential spaces over 2-3 probe parameters, >=3 runs, three "
         "dask schedulers), N=2..16 starts from threads behind a barrier (full runs and bare create_output_folder) and "
-        "from separate processes, and the public writer API (to_*, Outputs.save_to_file) against colliding names; the "
+        "from separate processes, pipelines that are deterministic or hold a stochastic probe (content drawn from numpy's "
+        "global generator) run without or with a pipeline seed, and the public writer API (to_*, Outputs.save_to_file) against colliding names; the "
         "clock of create_output_directory is frozen in most cases and parents are pre-populated with the directory and "
         "file names a run would use (learnt from a scratch start); non-trivial = >=2 starts/runs into one parent or "
         ">=2 requested files; distinct = distinct (kind, save list, space, schedule) signatures")
@@ -51,6 +52,9 @@ ASSUMPTIONS = [
     "files in the run directory that no result entry reports (copied YAML, logs, the unsuffixed files the sequential "
     "observation leaves behind) are not a violation; the metadata run of the dask path is only counted when it "
     "touches the run directory",
+    "when a run was executed more than once with different content (stochastic pipeline without a seed, e.g. the metadata "
+    "pass of the dask path), the run a reported file is attributed to is the execution whose buckets the result itself "
+    "holds for the labelled run at its last readout; when the result does not tell, any execution of the run is accepted",
     "formats a path refuses (NotImplementedError, missing h5py, TypeError/ValueError of a writer) are recorded, not alarmed; "
     "a failing run whose save list holds only fits/npy is a violation",
     "audit events cover Python-level I/O (open, os.*, shutil.*); the content hashes cover everything else",
@@ -60,6 +64,7 @@ REQUIRED_COUNTERS = [
     "dirs_checked", "mkdir_events", "same_second_starts", "frozen_clock_effective",
     "entries_resolved", "combos_checked", "files_compared_exact", "files_compared_lossy", "fs_events", "write_events",
     "preexisting_files_hashed", "prepopulated_collisions", "writer_calls", "writer_collisions_checked", "probe_snapshots",
+    "nonreproducible_runs", "entries_of_runs_executed_more_than_once", "entries_attributed_by_result_data",
 ]
 TIMEOUT = {"quick": 900, "thorough": 3600}
 LEVEL_TEXT = ("Exploration by runtime monitoring: every start is executed by the real run_mode (or the real writer functions) "
@@ -332,11 +337,15 @@ _KEEP: list = []
 _LOCK = threading.Lock()
 
 
-def content(shape, dtype, a, b, t, step, bucket) -> np.ndarray:
-    return probes.gen_array(tuple(shape), dtype, (int(a), int(b), int(t), int(step), BUCKETS.index(bucket)))
+def content(shape, dtype, a, b, t, step, bucket, nonce=0) -> np.ndarray:
+    key = (int(a), int(b), int(t), int(step), BUCKETS.index(bucket))
+    return probes.gen_array(tuple(shape), dtype, key + ((int(nonce),) if nonce else ()))
 
 
-def fill(detector, a=1, b=2, dtypes=None):
+def fill(detector, a=1, b=2, dtypes=None, stochastic=False):
+    """stochastic: the content also depends on a draw from numpy's global generator, as the content of pyxel's own
+    stochastic models does: without a pipeline seed no two executions of one run hold the same buckets."""
+    nonce = int(np.random.randint(1, 2**31 - 1)) if stochastic else 0
     step = int(detector.pipeline_count)
     t = int(round(float(detector.environment.temperature)))
     a, b = int(round(float(a))), int(round(float(b)))
@@ -344,7 +353,7 @@ def fill(detector, a=1, b=2, dtypes=None):
     dt = dtypes or {}
     seq = MON.note("probe", det=id(detector), step=step, key=[a, b, t])
     for name in BUCKETS:
-        arr = content(shape, dt.get(name, "uint16" if name == "image" else "float64"), a, b, t, step, name)
+        arr = content(shape, dt.get(name, "uint16" if name == "image" else "float64"), a, b, t, step, name, nonce)
         if name == "charge":
             detector.charge.add_charge_array(arr.astype(float))
         else:
@@ -363,7 +372,7 @@ def reset_log():
 
 
 def collect_snaps():
-    """-> ({key: final snapshot}, number of executed runs)."""
+    """-> ({key: final snapshot of the first execution}, number of executed runs, keys); collect_execs() gives all."""
     with _LOCK:
         log = list(LOG)
     runs: dict = {}
@@ -375,6 +384,21 @@ def collect_snaps():
     for ev in runs.values():
         snaps.setdefault(ev["key"], ev["snap"])
     return snaps, len(runs), [ev["key"] for ev in runs.values()]
+
+
+def collect_execs() -> dict:
+    """-> {key: [final snapshot of every execution of that run, in the order they started]}."""
+    with _LOCK:
+        log = list(LOG)
+    runs: dict = {}
+    for ev in log:
+        cur = runs.get(ev["det"])
+        if cur is None or ev["step"] >= cur["step"]:
+            runs[ev["det"]] = ev
+    out: dict = {}
+    for ev in sorted(runs.values(), key=lambda e: e["seq"]):
+        out.setdefault(ev["key"], []).append(ev["snap"])
+    return out
 
 
 # =====================================================================================
@@ -664,10 +688,50 @@ def compare_file(path: str, fmt: str, want: np.ndarray, candidates=()):
     return "lossy", ""
 
 
+def result_run_data(tree, base=None, single_key=None) -> dict:
+    """{(key, bucket): [array the result itself holds for that run at its last readout]}, resolved through the result's
+    own coordinate labels like the entries of /output; {} when the result carries no bucket data in a known layout."""
+    out: dict = {}
+    try:
+        for node in tree.subtree:
+            for bucket in BUCKETS:
+                if bucket not in node.data_vars:
+                    continue
+                da = node[bucket]
+                if not {"y", "x"} <= set(da.dims):
+                    continue
+                other = [d for d in da.dims if d not in ("time", "y", "x")]
+                for idx in itertools.product(*[range(da.sizes[d]) for d in other]):
+                    sub = da.isel(dict(zip(other, idx)))
+                    full = dict(DEFAULTS)
+                    if base is None and single_key is not None:
+                        full.update(dict(zip(("a", "b", "temperature"), single_key)))
+                    full.update(base or {})
+                    for name in DEFAULTS:
+                        if name in sub.coords and sub.coords[name].ndim == 0:
+                            full[name] = int(round(float(sub.coords[name].values)))
+                    if "time" in sub.dims:
+                        sub = sub.isel(time=-1)
+                    out.setdefault(((full["a"], full["b"], full["temperature"]), bucket), []).append(np.asarray(sub.values))
+    except Exception:  # noqa: BLE001 - an unknown layout: the attribution stays unresolved, nothing is decided on it
+        return {}
+    return out
+
+
+def _same(x, y) -> bool:
+    x, y = np.asarray(x), np.asarray(y)
+    return x.shape == y.shape and bool(np.array_equal(x, y))
+
+
 def check_result(ctx: Ctx, tag: str, tree, run_dir, save, expected_keys, snaps, seq_path=False, before=None, parent=None,
-                 base=None):
-    """Every requested (bucket, format, run) has exactly one entry; every entry exists and holds the right content."""
+                 base=None, execs=None):
+    """Every requested (bucket, format, run) has exactly one entry; every entry exists and holds the right content.
+
+    execs ({key: [snapshot of every execution]}): when a run was executed more than once with different content (a
+    pipeline that is not reproducible), the run a file is attributed to is the execution whose buckets the result holds."""
     entries, problems = reported_entries(tree, run_dir)
+    execs = execs or {}
+    held_cache: list = []
     for p in problems:
         ctx.viol(f"C19:{tag}:output-node-unreadable", p)
     req = requested(save)
@@ -678,7 +742,7 @@ def check_result(ctx: Ctx, tag: str, tree, run_dir, save, expected_keys, snaps, 
     for key in exp:
         if key not in snaps:
             ctx.viol(f"C19:{tag}:requested-run-never-executed", f"no probe snapshot for run {key}")
-    all_arrays = [(k, b, snaps[k][b]) for k in snaps for b in BUCKETS]
+    all_arrays = [(k, b, sn[b]) for k in snaps for sn in (execs.get(k) or [snaps[k]]) for b in BUCKETS]
     for en in entries:
         ctx.count("entries_resolved")
         full = dict(DEFAULTS)
@@ -710,9 +774,32 @@ def check_result(ctx: Ctx, tag: str, tree, run_dir, save, expected_keys, snaps, 
         if key not in snaps or en["bucket"] not in BUCKETS:
             continue
         want = snaps[key][en["bucket"]]
-        others = [arr for (k, b, arr) in all_arrays if not (k == key and b == en["bucket"])]
+        versions: list = []
+        for sn in execs.get(key) or []:
+            if not any(_same(sn[en["bucket"]], v) for v in versions):
+                versions.append(sn[en["bucket"]])
+        if len(versions) > 1:
+            # several executions of this run held different buckets: which one is in the result?
+            ctx.count("entries_of_runs_executed_more_than_once")
+            if not held_cache:
+                held_cache.append(result_run_data(tree, base, list(expected_keys)[0] if len(expected_keys) == 1 else None))
+            held = held_cache[0].get((key, en["bucket"]), [])
+            attributed = [v for v in versions if any(_same(v, h) for h in held)]
+            if len(attributed) == 1:
+                ctx.count("entries_attributed_by_result_data")
+                want = attributed[0]
+            else:  # unresolved: any execution of the run is accepted
+                ctx.count("entries_attribution_unresolved")
+                want = next((v for v in versions if compare_file(en["path"], en["fmt"], v)[0] in ("exact", "lossy")), want)
+        others = [arr for (k, b, arr) in all_arrays if not (k == key and b == en["bucket"]) or
+                  (len(versions) > 1 and not _same(arr, want))]
         verdict, detail = compare_file(en["path"], en["fmt"], want, others)
-        if verdict == "bad":
+        if verdict == "bad" and len(versions) > 1 and en["fmt"] in CORE_FORMATS and \
+                any(compare_file(en["path"], en["fmt"], v)[0] == "exact" for v in versions if not _same(v, want)):
+            ctx.viol(f"C19:{tag}:reported-file-holds-another-execution-of-its-run:{en['fmt']}",
+                     f"run {key}: {en['file']!r} reported for bucket {en['bucket']} holds the bucket of another execution "
+                     f"of that run ({len(versions)} executions with different content), not of the one the result holds: {detail}")
+        elif verdict == "bad":
             holder = next((f"run {k} bucket {b}" for (k, b, arr) in all_arrays
                            if compare_file(en["path"], en["fmt"], arr)[0] in ("exact",)), None) if en["fmt"] in CORE_FORMATS else None
             ctx.viol(f"C19:{tag}:reported-file-content-differs:{en['fmt']}",
@@ -790,9 +877,25 @@ def gen_detector(rng):
     return dspec, dtypes
 
 
-def pipeline_spec(a, b, dtypes):
-    return {GROUP: [{"name": MODEL, "func": "vf.checks.c19.fill",
-                     "arguments": {"a": int(a), "b": int(b), "dtypes": dict(dtypes)}}]}
+def pipeline_spec(a, b, dtypes, stochastic=False):
+    args = {"a": int(a), "b": int(b), "dtypes": dict(dtypes)}
+    if stochastic:
+        args["stochastic"] = True
+    return {GROUP: [{"name": MODEL, "func": "vf.checks.c19.fill", "arguments": args}]}
+
+
+def gen_reproducibility(rng) -> dict:
+    """Pipelines are deterministic, or hold a stochastic model (content drawn from numpy's global generator) run with or,
+    mostly, without a pipeline seed.  Drawn from a generator of its own, derived from the state of the case generator."""
+    import random
+    sub = random.Random(hash(rng.getstate()[1]))
+    stochastic = sub.random() < 0.5
+    seed = sub.randint(0, 2**31 - 1) if (stochastic and sub.random() < 0.3) else None
+    return {"stochastic": stochastic, "pipeline_seed": seed}
+
+
+def seed_kwargs(cfg) -> dict:
+    return {"pipeline_seed": int(cfg["pipeline_seed"])} if cfg.get("pipeline_seed") is not None else {}
 
 
 def gen_space(rng, dask):
@@ -849,15 +952,17 @@ def build_exposure(cfg, a, b, folder):
     import pyxel
     from pyxel.exposure import Exposure, Readout
     from pyxel.outputs import ExposureOutputs
-    pspec = pipeline_spec(a, b, cfg["dtypes"])
+    pspec = pipeline_spec(a, b, cfg["dtypes"], cfg.get("stochastic", False))
     rspec = {"times": cfg["times"], "non_destructive": cfg["non_destructive"]}
     if cfg.get("yaml"):
-        doc = {"exposure": {"readout": dict(rspec), "outputs": outputs_kwargs(folder, cfg["prefix"], cfg["save"])},
+        doc = {"exposure": {"readout": dict(rspec), "outputs": outputs_kwargs(folder, cfg["prefix"], cfg["save"]),
+                            **seed_kwargs(cfg)},
                "pipeline": build.pipeline_yaml_dict(pspec)}
         doc.update(build.detector_yaml_dict(cfg["dspec"]))
         conf = pyxel.loads(build.dump_yaml(doc))
         return conf.exposure, getattr(conf, build.DETECTOR_KEYS[cfg["dspec"]["kind"]]), conf.pipeline
-    mode = Exposure(readout=Readout(**rspec), outputs=ExposureOutputs(**outputs_kwargs(folder, cfg["prefix"], cfg["save"])))
+    mode = Exposure(readout=Readout(**rspec), outputs=ExposureOutputs(**outputs_kwargs(folder, cfg["prefix"], cfg["save"])),
+                    **seed_kwargs(cfg))
     return mode, build.make_detector(cfg["dspec"]), build.make_pipeline(pspec)
 
 
@@ -867,7 +972,7 @@ def build_observation(cfg, folder, aux):
     from pyxel.observation import Observation, ParameterValues
     from pyxel.outputs import ObservationOutputs
     space = cfg["space"]
-    pspec = pipeline_spec(DEFAULTS["a"], DEFAULTS["b"], cfg["dtypes"])
+    pspec = pipeline_spec(DEFAULTS["a"], DEFAULTS["b"], cfg["dtypes"], cfg.get("stochastic", False))
     rspec = {"times": cfg["times"], "non_destructive": cfg["non_destructive"]}
     extra = {}
     plist = []
@@ -884,7 +989,7 @@ def build_observation(cfg, folder, aux):
         extra = {"from_file": table, "column_range": (0, len(space["order"]))}
     if cfg.get("yaml"):
         obs = {"readout": dict(rspec), "mode": space["pmode"], "with_dask": cfg["dask"], "parameters": plist,
-               "outputs": outputs_kwargs(folder, cfg["prefix"], cfg["save"])}
+               "outputs": outputs_kwargs(folder, cfg["prefix"], cfg["save"]), **seed_kwargs(cfg)}
         if extra:
             obs.update({"from_file": extra["from_file"], "column_range": list(extra["column_range"])})
         doc = {"observation": obs, "pipeline": build.pipeline_yaml_dict(pspec)}
@@ -893,7 +998,8 @@ def build_observation(cfg, folder, aux):
         return conf.observation, getattr(conf, build.DETECTOR_KEYS[cfg["dspec"]["kind"]]), conf.pipeline
     mode = Observation(parameters=[ParameterValues(key=p["key"], values=p["values"]) for p in plist],
                        readout=Readout(**rspec), mode=space["pmode"], with_dask=cfg["dask"],
-                       outputs=ObservationOutputs(**outputs_kwargs(folder, cfg["prefix"], cfg["save"])), **extra)
+                       outputs=ObservationOutputs(**outputs_kwargs(folder, cfg["prefix"], cfg["save"])), **extra,
+                       **seed_kwargs(cfg))
     return mode, build.make_detector(cfg["dspec"]), build.make_pipeline(pspec)
 
 
@@ -961,7 +1067,7 @@ def gen_common(rng, root, dask=False):
     return {"dspec": dspec, "dtypes": dtypes, "times": [float(t) for t in times], "non_destructive": rng.random() < 0.4,
             "save": save, "exotic": exotic, "form": form, "prefix": rng.choice(["", "", "foo_", "run_", "x"]),
             "yaml": rng.random() < 0.3, "frozen": rng.random() < 0.8, "stamp": rand_stamp(rng).isoformat(),
-            "nested": nested, "relative": rng.random() < 0.2, "dask": dask}
+            "nested": nested, "relative": rng.random() < 0.2, "dask": dask, **gen_reproducibility(rng)}
 
 
 def folders(root, cfg):
@@ -989,6 +1095,21 @@ def stamp_of(cfg):
     return _dt.datetime.fromisoformat(cfg["stamp"]) if cfg["frozen"] else None
 
 
+def repro_class(cfg) -> str:
+    if not cfg.get("stochastic"):
+        return "deterministic"
+    return "stochastic/seeded" if cfg.get("pipeline_seed") is not None else "stochastic/unseeded"
+
+
+def note_repro(rec, cfg) -> dict:
+    """Executions of the window that just ended, per run; counts the runs whose content no second execution repeats."""
+    execs = collect_execs()
+    rec.observe("reproducibility", repro_class(cfg))
+    if repro_class(cfg) == "stochastic/unseeded":
+        rec.count("nonreproducible_runs", len(execs))
+    return execs
+
+
 def handle_failure(ctx, tag, cfg, exc):
     if cfg["exotic"]:
         ctx.count("refused")
@@ -1006,7 +1127,8 @@ def case_exposure(rec, index, rng, root):
     cfg["prepopulate"] = cfg["frozen"] and rng.random() < 0.7
     parent, folder, given = folders(root, cfg)
     case = {"kind": "exposure", **{k: cfg[k] for k in ("save", "times", "prefix", "yaml", "frozen", "stamp", "nested",
-                                                         "relative", "hier", "n_starts", "reuse_mode", "prepopulate", "dtypes")}}
+                                                         "relative", "hier", "n_starts", "reuse_mode", "prepopulate", "dtypes",
+                                                         "stochastic", "pipeline_seed")}}
     ctx = Ctx(rec, case, index)
     with FrozenClock(stamp_of(cfg)) as clock:
         if cfg["prepopulate"]:
@@ -1043,12 +1165,12 @@ def case_exposure(rec, index, rng, root):
             snaps, n_exec, _ = collect_snaps()
             rec.count("probe_snapshots", len(snaps))
             check_result(ctx, "exposure", tree, run_dir, cfg["save"], [(a, b, DEFAULTS["temperature"])], snaps,
-                         before=before, parent=parent)
+                         before=before, parent=parent, execs=note_repro(rec, cfg))
     rec.observe("modes", "exposure" + ("/yaml" if cfg["yaml"] else ""))
     rec.observe("save_forms", cfg["form"])
     rec.observe("n_readouts", len(cfg["times"]))
     sig = ("exposure", cfg["save"], cfg["times"], cfg["prefix"], cfg["n_starts"], cfg["reuse_mode"], cfg["hier"], cfg["yaml"],
-           cfg["prepopulate"], cfg["frozen"])
+           cfg["prepopulate"], cfg["frozen"], repro_class(cfg))
     rec.case(sig, cfg["n_starts"] >= 2 or len(requested(cfg["save"])) >= 2, sample=case)
 
 
@@ -1067,7 +1189,8 @@ def case_observation(rec, index, rng, root, dask):
     parent, folder, given = folders(root, cfg)
     expected = enumerate_keys(cfg["space"])
     case = {"kind": tag, **{k: cfg[k] for k in ("save", "times", "prefix", "yaml", "frozen", "stamp", "nested", "relative",
-                                                   "hier", "n_starts", "space", "sched", "prepopulate", "dtypes")}}
+                                                   "hier", "n_starts", "space", "sched", "prepopulate", "dtypes",
+                                                   "stochastic", "pipeline_seed")}}
     ctx = Ctx(rec, case, index)
     with FrozenClock(stamp_of(cfg)) as clock:
         if cfg["prepopulate"]:
@@ -1115,11 +1238,13 @@ def case_observation(rec, index, rng, root, dask):
                     rec.count("dask_metadata_run_touched_run_directory", n_before_load)
                 rec.observe("dask_schedulers", json.dumps(cfg["sched"]))
                 rec.observe("dask_writer_threads", len({e["tid"] for e in events if e["ev"] == "open"}))
-            check_result(ctx, tag, tree, run_dir, cfg["save"], expected, snaps, seq_path=not dask, before=before, parent=parent)
+            check_result(ctx, tag, tree, run_dir, cfg["save"], expected, snaps, seq_path=not dask, before=before, parent=parent,
+                         execs=note_repro(rec, cfg))
     rec.observe("modes", tag + ":" + cfg["space"]["pmode"] + ("/yaml" if cfg["yaml"] else ""))
     rec.observe("save_forms", cfg["form"])
     rec.observe("n_runs", len(expected))
-    sig = (tag, cfg["save"], cfg["space"], cfg["times"], cfg["prefix"], cfg["n_starts"], cfg["yaml"], cfg["sched"], cfg["frozen"])
+    sig = (tag, cfg["save"], cfg["space"], cfg["times"], cfg["prefix"], cfg["n_starts"], cfg["yaml"], cfg["sched"], cfg["frozen"],
+           repro_class(cfg))
     rec.case(sig, True, sample=case)
 
 
@@ -1145,6 +1270,7 @@ def case_threads(rec, index, rng, root, tier):
     cfg["exotic"] = None
     cfg["save"], _ex, cfg["form"] = gen_save(rng, allow_exotic=False)
     cfg["times"] = [1.0]
+    cfg["pipeline_seed"] = None  # a pipeline seed serialises the starts on pyxel's seed lock
     full = rng.random() < 0.55
     n = rng.choice([2, 3, 4, 5, 6, 8]) if full else rng.choice([2, 4, 7, 8, 11, 12, 16, 16])
     if tier == "thorough" and full:
@@ -1153,7 +1279,7 @@ def case_threads(rec, index, rng, root, tier):
     cfg["prepopulate"] = rng.random() < 0.5
     parent, folder, given = folders(root, cfg)
     case = {"kind": "threads", "full_runs": full, "n": n, "rounds": rounds,
-            **{k: cfg[k] for k in ("save", "prefix", "stamp", "nested", "relative", "prepopulate", "dtypes")}}
+            **{k: cfg[k] for k in ("save", "prefix", "stamp", "nested", "relative", "prepopulate", "dtypes", "stochastic")}}
     ctx = Ctx(rec, case, index)
     with FrozenClock(stamp_of(cfg)) as clock:
         if cfg["prepopulate"]:
@@ -1206,13 +1332,15 @@ def case_threads(rec, index, rng, root, tier):
             rec.observe("interleavings", f"thr{n}:" + interleaving_signature(runs, events))
             rec.observe("distinct_directories_per_batch", len({r["dir"] for r in runs if r["dir"]}))
             snaps, _n, _k = collect_snaps()
+            execs = note_repro(rec, cfg) if full else None
             rec.count("probe_snapshots", len(snaps))
             for j, run in zip(jobs, runs):
                 if j.get("err"):
                     ctx.viol("C19:threads:start-failed", f"start {j['id']} of {n}: {j['err']}")
                 elif full:
                     check_result(ctx, "threads", j["tree"], run["dir"], cfg["save"],
-                                 [(j["a"], j["b"], DEFAULTS["temperature"])], snaps, before=before, parent=parent)
+                                 [(j["a"], j["b"], DEFAULTS["temperature"])], snaps, before=before, parent=parent,
+                                 execs=execs)
     sig = ("threads", full, n, rounds, cfg["save"], cfg["prefix"], cfg["prepopulate"], cfg["nested"])
     rec.case(sig, True, sample=case)
 
@@ -1263,7 +1391,8 @@ def proc_main(cfg_file: str) -> None:
         if tree is not None:
             snaps, _n, _k = collect_snaps()
             mini.count("probe_snapshots", len(snaps))
-            check_result(ctx, "procs", tree, out["dir"], cfg["save"], [(job["a"], job["b"], DEFAULTS["temperature"])], snaps)
+            check_result(ctx, "procs", tree, out["dir"], cfg["save"], [(job["a"], job["b"], DEFAULTS["temperature"])], snaps,
+                         execs=note_repro(mini, cfg))
         out["counts"], out["sets"], out["viols"] = mini.counts, mini.sets, mini.viols
         out["monitor_errors"] = MON.errors
         out["pyxel_modules"] = assert_pyxel_from_repo()
@@ -1278,7 +1407,7 @@ def proc_main(cfg_file: str) -> None:
 
 def case_procs(rec, index, rng, root, n):
     cfg = gen_common(rng, root)
-    cfg.update({"frozen": True, "yaml": False, "exotic": None, "times": [1.0]})
+    cfg.update({"frozen": True, "yaml": False, "exotic": None, "times": [1.0], "pipeline_seed": None})
     cfg["save"], _ex, cfg["form"] = gen_save(rng, allow_exotic=False)
     full = rng.random() < 0.7
     cfg["prepopulate"] = rng.random() < 0.5
@@ -1286,7 +1415,7 @@ def case_procs(rec, index, rng, root, n):
     sync = os.path.join(root, "sync")
     os.makedirs(sync, exist_ok=True)
     case = {"kind": "procs", "full_runs": full, "n": n,
-            **{k: cfg[k] for k in ("save", "prefix", "stamp", "nested", "relative", "prepopulate", "dtypes")}}
+            **{k: cfg[k] for k in ("save", "prefix", "stamp", "nested", "relative", "prepopulate", "dtypes", "stochastic")}}
     ctx = Ctx(rec, case, index)
     if cfg["prepopulate"]:
         with FrozenClock(stamp_of(cfg)):
@@ -1635,6 +1764,10 @@ def coverage_extra(counters, sets, tier):
                   "preexisting_files_hashed": c("preexisting_files_hashed", 0)},
         "dask": {"metadata_runs_seen": c("dask_metadata_runs_seen", 0), "reexecutions": c("dask_reexecutions_seen", 0),
                  "metadata_run_events_in_run_directory": c("dask_metadata_run_touched_run_directory", 0)},
+        "reproducibility": {"classes": sets.get("reproducibility", []), "nonreproducible_runs": c("nonreproducible_runs", 0),
+                            "entries_of_runs_executed_more_than_once": c("entries_of_runs_executed_more_than_once", 0),
+                            "attributed_by_result_data": c("entries_attributed_by_result_data", 0),
+                            "attribution_unresolved": c("entries_attribution_unresolved", 0)},
         "open_findings_reproduced": sets.get("open_findings", []),
         "strict": STRICT,
         "skipped": ["HDF5 backend (h5py) not installed: hdf requests are recorded as refused"],
